@@ -33,13 +33,17 @@ CLAIMS["C05"] = ("proof", "kwargs_from_call is proved against the closed form of
                  "call that binds) is a scripted quantifier-free proof with two inductions over the parameter index; the select_* "
                  "functions pass the resolved refs through.", "8 C05")
 
+CLAIMS["C12"] = ("other", "Sequential obligations proved for all six wrappers (frame: no shared state written except the context "
+                 "variable's binding, restored on every exit; no in-place mutation of a set that existed before the call); the reduction "
+                 "from these to 'for all interleavings and context-inheritance modes' is a paper argument over contextvars semantics and "
+                 "is listed as an unchecked assumption. Replays: asyncio tasks / copied-context threads with explicit hand-offs.", "8 C12")
+
 NOT_YET = {
     "C03": "invariant wrappers and add_invariant_checks not yet under contract in this round",
     "C04": "metaclass merge units not yet under contract in this round",
     "C06": "interpreter units (_recompute.Visitor) not yet under contract",
     "C07": "interpreter and decorator-inspection units not yet under contract",
     "C09": "_create_violation_error body and decorator validation not yet under contract",
-    "C12": "sequential no-in-place-mutation obligation exists but the context replay family is not built yet",
     "C14": "decorating units (update_wrapper, find_checker) not yet under contract",
     "C15": "decorator __init__/__call__ units not yet under contract",
     "C17": "class-heap frame obligations not yet built",
@@ -57,7 +61,7 @@ def main():
             "quick_cmd": "./check %s --tier quick" % pid,
             "thorough_cmd": "./check %s --tier thorough" % pid,
             "evidence_file": "/verif/evidence/%s.json" % pid,
-            "replay_cmd_template": "PYTHONPATH=/repo /venv/bin/python /verif/replay/%s --scenario {path}" % ("bindfam.py" if pid == "C05" else "callfam.py"),
+            "replay_cmd_template": "PYTHONPATH=/repo /venv/bin/python /verif/replay/%s --scenario {path}" % ({"C05": "bindfam.py", "C12": "ctxfam.py"}.get(pid, "callfam.py")),
             "engine": "pyvc",
             "level_claimed": {"category": cat, "text": text + " Units: " + UNITS_A + ".", "design_ref": "DESIGN.md section " + ref},
             "level_note": TRUST,
